@@ -143,6 +143,60 @@ Definition position_outcome (p : position) (act exp : gty) : outcome :=
   if coercing p then check_type_against act exp
   else if unify_ok act exp then Accept [] else Reject.
 
+(* One type variable T meeting several expressions: a tuple literal checked against
+   tuple[T, ..., T] (ExprChecker.visit_Tuple), the arguments of f(a: T, b: T, ...)
+   (type_check_args), a struct constructor generic in T, array(x, y, ...).  Checking against the
+   still unsolved T synthesises the expression and solves T with its type; once T is solved —
+   and if the loop applies the substitution found so far ([substituted]) — the next expression
+   is checked against the solution by check_type_against.  When the substitution is NOT applied
+   every expression meets the bare variable and `subst |= s` lets the last one win. *)
+Inductive gen_outcome :=
+| GAccept (solution : gty) (chains : list (list hop))   (* T := solution; per-expression ops *)
+| GReject
+| GCrash.
+
+Fixpoint check_elems (substituted : bool) (sol : option gty) (l : list gty) : option (option gty * list (list hop)) + unit :=
+  match l with
+  | [] => inl (Some (sol, []))
+  | a :: r =>
+      let step (sol' : option gty) (c : list hop) :=
+        match check_elems substituted sol' r with
+        | inl (Some (s, cs)) => inl (Some (s, c :: cs))
+        | o => o
+        end in
+      match (if substituted then sol else None) with
+      | None => step (Some a) []                       (* against the variable: synthesise, T := a *)
+      | Some t =>
+          match check_type_against a t with
+          | Accept c => step sol c
+          | Reject => inl None
+          | Crash => inr tt
+          end
+      end
+  end.
+
+(* the whole expression, whose type mentions T, is then unified with [ret] instantiated at T
+   (call results are not coerced) *)
+Definition generic_outcome (substituted : bool) (elts : list gty) (ret : gty) : gen_outcome :=
+  match check_elems substituted None elts with
+  | inl (Some (Some t, cs)) => if unify_ok t ret then GAccept t cs else GReject
+  | inl (Some (None, _)) => GReject          (* no expression: T cannot be inferred *)
+  | inl None => GReject
+  | inr _ => GCrash
+  end.
+
+(* a chain of annotated assignments  x1: E1 = x0; x2: E2 = x1; ...  : every step is its own
+   check_type_against, the ops accumulate *)
+Fixpoint path_outcome (src : gty) (path : list gty) : outcome :=
+  match path with
+  | [] => Accept []
+  | e :: r =>
+      match check_type_against src e with
+      | Accept c => match path_outcome e r with Accept c' => Accept (c ++ c') | o => o end
+      | o => o
+      end
+  end.
+
 (* ---------------------------------------------------------------------------------- *)
 (** * 2. Values and the semantics of the inserted ops *)
 
